@@ -5,8 +5,19 @@
 pub mod util;
 pub mod env;
 pub mod dest;
+pub mod c02_dso_debug;
+pub mod c03_suspend;
+pub mod c04_registers;
+pub mod c06_stacks;
+pub mod c07_memory_list;
+pub mod c08_modules;
 pub mod c09_dir_section;
+pub mod c11_init;
 pub mod c12_sanitize;
+pub mod c13_aggregate;
+pub mod c14_module_reader;
+pub mod c18_streams;
+pub mod c19_dump;
 pub mod c20_skip_stacks;
 pub mod c15_thread_names;
 pub mod c16_mem_writer;
